@@ -9,6 +9,9 @@ are ASSUMED block-placement contracts (listed in the evidence).
 Part 2 (algebra, abstract matrix ring: uninterpreted sort with + * neg transpose inverse col row, textbook identities ASSUMED and
 listed): CoupledSystem._direct_mode and _adjoint_mode both return dF/dx - dF/dy (dR/dy)^-1 dR/dx; the linear solver is an
 assumed exact solve.
+
+Part 3 (Jacobian operators, same ring + conjugate transpose): every wrapper class of jacobian_operator.py applies in _matvec the
+matrix it denotes and in _rmatvec its conjugate transpose; real / T / + / - / @ / shift_identity build the right wrapper.
 """
 from __future__ import annotations
 
@@ -298,7 +301,11 @@ class GetJacobianGenerator(Contract):
 
     def ensures(self, c):
         A = _gen_asm(c)
-        return [(l, f) for l, f in listing(A, c.result, A.nf, z3.IntVal(0), "gp")]
+        d0, d1 = c.old.self.disciplines, c.new.self.disciplines
+        x = z3.Const("x!gf", TStr.sort())
+        # (also generated by the frame `modifies = ()`, for every path and loop iteration; stated explicitly: J - I is built on a copy)
+        frame = [("the-disciplines-jacobians-are-not-modified", z3.ForAll([x], z3.And(d1.member[x] == d0.member[x], z3.Implies(d0.member[x], d1.vals[x] == d0.vals[x]))))]
+        return [(l, f) for l, f in listing(A, c.result, A.nf, z3.IntVal(0), "gp")] + frame
 
 
 # ---------------------------------------------------------------------------- prefix sums: congruence (induction lemma)
@@ -819,3 +826,266 @@ class ModesAgreeLemma(Contract):
         DX, DY, A, B = (z3.Const(n, MatrixS) for n in ("DX", "DY", "A", "B"))
         ax = z3.And(*[f for _, f in ring_axioms()])
         return [("adjoint-of-the-transposed-transpose-equals-direct", z3.Implies(ax, closed_form(DX, DY, mtr(mtr(A)), B) == closed_form(DX, DY, A, B)))]
+
+
+# ============================================================================ Part 3: the Jacobian operators (linear operators)
+# An operator denotes a (possibly complex) matrix A: scipy's public matvec(x) = A x, rmatvec(x) = A^H x.  Every wrapper class of
+# jacobian_operator.py must implement _matvec / _rmatvec consistently with the matrix IT denotes (built from its operands' matrices).
+from pyvc.plug_np_c07 import TDtype, TOp, is_real, madj, midentity, mre, operator_axioms  # noqa: E402
+
+JOP = "gemseo.core.derivatives.jacobian_operator."
+SHAPE = TTuple(TInt, TInt)
+_OP_BASE = {"shape": SHAPE, "dtype": TDtype}
+
+
+def operator_named():
+    return [(f"linear operators (assumed textbook identity): {l}", f) for l, f in operator_axioms()]
+
+
+def _sub(x, y):
+    return madd(x, mneg(y))
+
+
+def _operator_contract(cls, fields, denotes, doc, real_part=False, real_operands=()):
+    """Contracts of cls._matvec / cls._rmatvec: with D the matrix denoted by the wrapper (function `denotes` of its operands' matrices),
+    _matvec(x) = D x and _rmatvec(x) = D^H x (their real parts for the real-casting wrapper); x and the operands are not modified."""
+    schema(JOP + cls, dict(_OP_BASE, **fields))
+
+    def operands(c):
+        out = []
+        for f in fields:
+            v = getattr(c.old.self, f)
+            out.append(v.obj.term if isinstance(v, C.View) else v)
+        return out
+
+    def make(method, adjoint):
+        class _K(Contract):
+            targets = (JOP + cls + "." + method,)
+            prop = ("C07",)
+            c07 = "ring"
+            params = {"x": TRing}
+            returns = TRing
+
+            def requires(self, c):
+                ops = operands(c)
+                return [(f"operand-{i + 1}-is-a-real-array", is_real(ops[i])) for i in real_operands]
+
+            def axioms(self, c):
+                return operator_named()
+
+            def ensures(self, c):
+                D = denotes(*operands(c))
+                x = mterm(c.old.x)
+                expected = mmul(madj(D) if adjoint else D, x)
+                if real_part:
+                    expected = mre(expected)
+                return [("applies-the-adjoint-of-the-denoted-matrix" if adjoint else "applies-the-denoted-matrix", mterm(c.result) == expected),
+                        ("argument-not-modified", mterm(c.new.x) == x)]
+
+        _K.__name__ = f"{cls.strip('_')}_{method.strip('_')}"
+        _K.__qualname__ = _K.__name__
+        _K.__doc__ = doc
+        return register(_K)
+
+    return make("_matvec", False), make("_rmatvec", True)
+
+
+_P = "_RealJacobianOperator__operator"
+_Q = "_AdjointJacobianOperator__operator"
+_operator_contract("_RealJacobianOperator", {_P: TOp}, lambda a: a, "real casting: x -> Re(A x), x -> Re(A^H x)", real_part=True)
+_operator_contract("_AdjointJacobianOperator", {_Q: TOp}, lambda a: madj(a), "adjoint (transpose of a real operator): denotes A^H")
+_operator_contract("_SumOperation", {"_operand_1": TOp, "_operand_2": TOp}, lambda a, b: madd(a, b), "denotes A + B")
+_operator_contract("_SumOperationWithArray", {"_operand_1": TOp, "_operand_2": TRing}, lambda a, b: madd(a, b), "denotes A + B (B a real array)", real_operands=(1,))
+_operator_contract("_SubOperation", {"_operand_1": TOp, "_operand_2": TOp}, lambda a, b: _sub(a, b), "denotes A - B")
+_operator_contract("_SubOperationWithArray", {"_operand_1": TOp, "_operand_2": TRing}, lambda a, b: _sub(a, b), "denotes A - B (B a real array)", real_operands=(1,))
+_operator_contract("_ComposedOperationArrayOperator", {"_operand_1": TRing, "_operand_2": TOp}, lambda a, b: mmul(a, b), "denotes A B (A a real array)", real_operands=(0,))
+_operator_contract("_ComposedOperationOperatorOperator", {"_operand_1": TOp, "_operand_2": TOp}, lambda a, b: mmul(a, b), "denotes A B")
+_operator_contract("_ComposedOperationOperatorArray", {"_operand_1": TOp, "_operand_2": TRing}, lambda a, b: mmul(a, b), "denotes A B (B a real array)", real_operands=(1,))
+
+
+def _identity_contract(method):
+    class _K(Contract):
+        """The identity operator returns its argument (I x = x, I^H x = x)."""
+
+        targets = (JOP + "_IdentityOperator." + method,)
+        prop = ("C07",)
+        c07 = "ring"
+        params = {"x": TRing}
+        returns = TRing
+
+        def ensures(self, c):
+            return [("identity", mterm(c.result) == mterm(c.old.x)), ("argument-not-modified", mterm(c.new.x) == mterm(c.old.x))]
+
+    _K.__name__ = _K.__qualname__ = f"IdentityOperator_{method.strip('_')}"
+    return register(_K)
+
+
+schema(JOP + "_IdentityOperator", dict(_OP_BASE))
+_identity_contract("_matvec")
+_identity_contract("_rmatvec")
+
+
+# ---------------------------------------------------------------------------- construction of the wrappers (structure: class, operands, shape)
+JO = JOP + "JacobianOperator"
+schema(JO, dict(_OP_BASE))
+schema(JOP + "_BaseOperation", dict(_OP_BASE, _operand_1=TOp, _operand_2=TOp))
+schema(JOP + "_BaseComposedOperation", dict(_OP_BASE, _operand_1=TOp, _operand_2=TOp))
+
+
+def _same_value(a, b):
+    """Identity for heap objects, equality of terms for embedded values (as a z3 Bool)."""
+    from pyvc.values import Ref as _Ref, SV as _SV
+
+    if isinstance(a, _Ref) or isinstance(b, _Ref):
+        if isinstance(a, _Ref) and isinstance(b, _Ref):
+            return z3.BoolVal(a.id == b.id)
+        return z3.BoolVal(False)
+    if isinstance(a, _SV) and isinstance(b, _SV):
+        return a.term == b.term
+    return z3.BoolVal(a is b)
+
+
+def _shape_is(obj, rows, cols):
+    sh = obj.fields.get("shape")
+    if not (isinstance(sh, tuple) and len(sh) == 2):
+        return z3.BoolVal(False)
+    t = lambda v: v.term if hasattr(v, "term") else z3.IntVal(v)  # noqa: E731
+    return z3.And(t(sh[0]) == rows, t(sh[1]) == cols)
+
+
+def _shape_of(c, v):
+    """(rows, cols) terms of an operand: an operator object, an abstract operator or an abstract array."""
+    from pyvc.values import Ref as _Ref
+
+    if isinstance(v, _Ref):
+        o = c._new_heap[v.id]
+        if hasattr(o, "term"):
+            return nrows(o.term), ncols(o.term)
+        sh = o.fields["shape"]
+        return sh[0].term, sh[1].term
+    return nrows(v.term), ncols(v.term)
+
+
+def _init_contract(cls, operands, shape_rule, doc):
+    """cls.__init__ stores its operands unchanged and sets the shape of the denoted matrix."""
+
+    class _K(Contract):
+        targets = (JOP + cls + ".__init__",)
+        prop = ("C07",)
+        c07 = "ring"
+        params = dict(operands)
+        modifies = ("self",)
+        inline_ok = True  # constructors are inlined at their call sites (real / T / __add__ ...)
+
+        def ensures(self, c):
+            o = c._new_heap[c.arg("self").id]
+            names = list(operands)
+            shapes = [_shape_of(c, c.arg(n)) for n in names]
+            r, k = shape_rule(*shapes)
+            out = [("shape", _shape_is(o, r, k))]
+            for n in names:
+                f = {"operator": f"{cls}__operator"}.get(n, f"_{n}")
+                out.append((f"{n}-stored", _same_value(o.fields.get(f), c.arg(n))))
+            return out
+
+    _K.__name__ = _K.__qualname__ = f"{cls.strip('_')}_init"
+    _K.__doc__ = doc
+    return register(_K)
+
+
+_init_contract("_RealJacobianOperator", {"operator": TOp}, lambda s: s, "same shape as the wrapped operator")
+_init_contract("_AdjointJacobianOperator", {"operator": TOp}, lambda s: (s[1], s[0]), "shape of the wrapped operator swapped")
+_init_contract("_BaseOperation", {"operand_1": TOp, "operand_2": TOp}, lambda s1, s2: s1, "sum / difference: shape of the first operand")
+_init_contract("_BaseComposedOperation", {"operand_1": TOp, "operand_2": TOp}, lambda s1, s2: (s1[0], s2[1]), "product: (rows of the first, columns of the second operand)")
+
+
+def _builder_contract(method, other_type, result_cls, order, shape_rule, doc, variant=None, kind="method"):
+    """JacobianOperator.<method>: returns a wrapper of class result_cls over (self, other) with the shape of the denoted matrix."""
+
+    class _K(Contract):
+        targets = (JO + "." + method,)
+        prop = ("C07",)
+        c07 = "ring"
+        params = {"other": other_type} if other_type is not None else {}
+        inline_ok = True  # small glue: callers (shift_identity) see the body
+
+        def ensures(self, c):
+            from pyvc.values import Ref as _Ref
+
+            r = c.result_value
+            if not isinstance(r, _Ref) or not hasattr(c._new_heap[r.id], "fields"):
+                return [("returns-a-wrapper-object", z3.BoolVal(False))]
+            o = c._new_heap[r.id]
+            me, other = c.arg("self"), (c.arg("other") if other_type is not None else None)
+            ops = {"self": me, "other": other}
+            first, second = (ops[n] for n in order) if len(order) == 2 else (ops[order[0]], None)
+            out = [("wrapper-class", z3.BoolVal(o.cls == JOP + result_cls))]
+            if second is None:
+                out.append(("wrapped-operator", _same_value(o.fields.get(f"{result_cls}__operator"), first)))
+                rows, cols = shape_rule(_shape_of(c, first))
+            else:
+                out += [("first-operand", _same_value(o.fields.get("_operand_1"), first)), ("second-operand", _same_value(o.fields.get("_operand_2"), second))]
+                rows, cols = shape_rule(_shape_of(c, first), _shape_of(c, second))
+            out.append(("shape", _shape_is(o, rows, cols)))
+            return out  # (self and other unchanged: frame condition, modifies = ())
+
+    if variant:
+        _K.variant = variant
+    _K.__name__ = _K.__qualname__ = f"JacobianOperator_{method.strip('_')}_{variant or 'operator'}"
+    _K.__doc__ = doc
+    return register(_K)
+
+
+_first = lambda s1, s2=None: s1  # noqa: E731
+_prod = lambda s1, s2: (s1[0], s2[1])  # noqa: E731
+_builder_contract("real", None, "_RealJacobianOperator", ("self",), lambda s: s, "real casting wrapper over self")
+_builder_contract("T", None, "_AdjointJacobianOperator", ("self",), lambda s: (s[1], s[0]), "adjoint wrapper over self, shape swapped")
+_builder_contract("__add__", TOp, "_SumOperation", ("self", "other"), _first, "self + operator")
+_builder_contract("__add__", TRing, "_SumOperationWithArray", ("self", "other"), _first, "self + array", variant="array")
+_builder_contract("__sub__", TOp, "_SubOperation", ("self", "other"), _first, "self - operator")
+_builder_contract("__sub__", TRing, "_SubOperationWithArray", ("self", "other"), _first, "self - array", variant="array")
+_builder_contract("__matmul__", TOp, "_ComposedOperationOperatorOperator", ("self", "other"), _prod, "self @ operator")
+_builder_contract("__matmul__", TRing, "_ComposedOperationOperatorArray", ("self", "other"), _prod, "self @ array", variant="array")
+_builder_contract("__rmatmul__", TOp, "_ComposedOperationOperatorOperator", ("other", "self"), _prod, "operator @ self")
+_builder_contract("__rmatmul__", TRing, "_ComposedOperationArrayOperator", ("other", "self"), _prod, "array @ self", variant="array")
+
+
+@register
+class IdentityOperatorInit(Contract):
+    """The identity operator of size n has shape (n, n)."""
+
+    targets = (JOP + "_IdentityOperator.__init__",)
+    prop = ("C07",)
+    c07 = "ring"
+    params = {"size": TInt}
+    modifies = ("self",)
+    inline_ok = True
+
+    def ensures(self, c):
+        return [("shape", _shape_is(c._new_heap[c.arg("self").id], c.old.size, c.old.size))]
+
+
+@register
+class ShiftIdentity(Contract):
+    """shift_identity() denotes A - I: a difference wrapper over (self, identity of size rows(A)), with the shape of A."""
+
+    targets = (JO + ".shift_identity",)
+    prop = ("C07",)
+    c07 = "ring"
+
+    def ensures(self, c):
+        from pyvc.values import Ref as _Ref
+
+        r = c.result_value
+        if not isinstance(r, _Ref) or not hasattr(c._new_heap[r.id], "fields"):
+            return [("returns-a-wrapper-object", z3.BoolVal(False))]
+        o = c._new_heap[r.id]
+        me = c.arg("self")
+        rows, cols = _shape_of(c, me)
+        second = o.fields.get("_operand_2")
+        ident = c._new_heap[second.id] if isinstance(second, _Ref) else None
+        return [("difference-wrapper", z3.BoolVal(o.cls == JOP + "_SubOperation")),
+                ("first-operand-is-self", _same_value(o.fields.get("_operand_1"), me)),
+                ("second-operand-is-the-identity-of-size-rows", z3.And(z3.BoolVal(ident is not None and getattr(ident, "cls", "") == JOP + "_IdentityOperator"),
+                                                                       _shape_is(ident, rows, rows) if ident is not None and hasattr(ident, "fields") else z3.BoolVal(False))),
+                ("shape", _shape_is(o, rows, cols))]
